@@ -83,6 +83,8 @@ func (b *rtBackoff) Reset() { b.n = 0; b.d.x.Log(trace.E{"ev": "bo", "op": "rese
 var _ cbackoff.BackOff = (*rtBackoff)(nil)
 
 type rtClient struct {
+	idx      int
+	xid      int // id of the call in flight in Routine.tla: (client index+1)*100 + program index+1
 	c        *sched.Client
 	inflight int
 	op       string
@@ -311,7 +313,7 @@ func errName(err error) string {
 	}
 }
 
-func (d *rtDriver) opFunc(c *rtClient, op rtOp) sched.Op {
+func (d *rtDriver) opFunc(c *rtClient, pi int, op rtOp) sched.Op {
 	x := d.x
 	label := "call:" + c.c.Name
 	snap := func() {
@@ -324,6 +326,8 @@ func (d *rtDriver) opFunc(c *rtClient, op rtOp) sched.Op {
 		id := d.nextCall
 		d.mu.Unlock()
 		c.inflight, c.op = id, op.Op
+		c.xid = (c.idx+1)*100 + pi + 1
+		xid := c.xid
 		defer func() { c.inflight = 0 }()
 		switch op.Op {
 		case "setctx", "clearctx":
@@ -349,7 +353,7 @@ func (d *rtDriver) opFunc(c *rtClient, op rtOp) sched.Op {
 			} else {
 				ch = d.rc.SetContext(ctx, restart)
 			}
-			x.Log(trace.E{"ev": "ret", "id": id, "op": op.Op, "changed": ch, "actor": c.c.Name})
+			x.Log(trace.E{"ev": "ret", "id": id, "xid": xid, "op": op.Op, "changed": ch, "actor": c.c.Name})
 			snap()
 		case "setroutine":
 			x.Log(trace.E{"ev": "call", "id": id, "op": op.Op, "f": op.F, "actor": c.c.Name})
@@ -358,17 +362,17 @@ func (d *rtDriver) opFunc(c *rtClient, op rtOp) sched.Op {
 				rt = d.body(op.F, 0)
 			}
 			wch, reset := d.rc.SetRoutine(rt)
-			x.Log(trace.E{"ev": "ret", "id": id, "op": op.Op, "reset": reset, "ch": d.regCh(wch), "actor": c.c.Name})
+			x.Log(trace.E{"ev": "ret", "id": id, "xid": xid, "op": op.Op, "reset": reset, "ch": d.regCh(wch), "actor": c.c.Name})
 			snap()
 		case "setstate":
 			x.Log(trace.E{"ev": "call", "id": id, "op": op.Op, "s": op.S, "actor": c.c.Name})
 			wch, changed, reset, running := d.sr.SetState(op.S)
-			x.Log(trace.E{"ev": "ret", "id": id, "op": op.Op, "changed": changed, "reset": reset, "running": running, "ch": d.regCh(wch), "actor": c.c.Name})
+			x.Log(trace.E{"ev": "ret", "id": id, "xid": xid, "op": op.Op, "changed": changed, "reset": reset, "running": running, "ch": d.regCh(wch), "actor": c.c.Name})
 			snap()
 		case "setsr":
 			x.Log(trace.E{"ev": "call", "id": id, "op": op.Op, "actor": c.c.Name})
 			wch, reset, running := d.sr.SetStateRoutine(func(ctx context.Context, st int) error { return d.body(-1, st)(ctx) })
-			x.Log(trace.E{"ev": "ret", "id": id, "op": op.Op, "reset": reset, "running": running, "ch": d.regCh(wch), "actor": c.c.Name})
+			x.Log(trace.E{"ev": "ret", "id": id, "xid": xid, "op": op.Op, "reset": reset, "running": running, "ch": d.regCh(wch), "actor": c.c.Name})
 			snap()
 		case "restart":
 			x.Log(trace.E{"ev": "call", "id": id, "op": op.Op, "actor": c.c.Name})
@@ -378,7 +382,7 @@ func (d *rtDriver) opFunc(c *rtClient, op rtOp) sched.Op {
 			} else {
 				ok = d.rc.RestartRoutine()
 			}
-			x.Log(trace.E{"ev": "ret", "id": id, "op": op.Op, "ok": ok, "actor": c.c.Name})
+			x.Log(trace.E{"ev": "ret", "id": id, "xid": xid, "op": op.Op, "ok": ok, "actor": c.c.Name})
 			snap()
 		case "waitexited":
 			ctx, cancel := context.WithCancel(context.Background())
@@ -392,7 +396,7 @@ func (d *rtDriver) opFunc(c *rtClient, op rtOp) sched.Op {
 			}
 			c.cancel = nil
 			cancel()
-			x.Log(trace.E{"ev": "ret", "id": id, "op": op.Op, "res": errName(err), "actor": c.c.Name})
+			x.Log(trace.E{"ev": "ret", "id": id, "xid": xid, "op": op.Op, "res": errName(err), "actor": c.c.Name})
 		default:
 			panic("bad op " + op.Op)
 		}
@@ -431,9 +435,9 @@ func (d *rtDriver) Run(x *sched.Exec, raw json.RawMessage) json.RawMessage {
 		d.rc = routine.NewRoutineContainer(opts...)
 	}
 	for i, prog := range sc.Clients {
-		c := &rtClient{c: x.NewClient(fmt.Sprintf("c%d", i+1))}
-		for _, op := range prog {
-			c.c.Prog = append(c.c.Prog, d.opFunc(c, op))
+		c := &rtClient{c: x.NewClient(fmt.Sprintf("c%d", i+1)), idx: i}
+		for pi, op := range prog {
+			c.c.Prog = append(c.c.Prog, d.opFunc(c, pi, op))
 		}
 		d.cl = append(d.cl, c)
 	}
@@ -515,10 +519,11 @@ func (d *rtDriver) Run(x *sched.Exec, raw json.RawMessage) json.RawMessage {
 		}
 		live, active := d.liveSnapshot()
 		d.lastC = fmt.Sprint(live, active)
-		blk := []int{}
+		blk, xblk := []int{}, []int{}
 		for _, c := range d.cl {
 			if c.inflight != 0 && x.Blocked(c.c) {
 				blk = append(blk, c.inflight)
+				xblk = append(xblk, c.xid)
 			}
 		}
 		gs := -1
@@ -529,7 +534,7 @@ func (d *rtDriver) Run(x *sched.Exec, raw json.RawMessage) json.RawMessage {
 		if key == d.lastQ {
 			return
 		}
-		x.Log(trace.E{"ev": "quiet", "live": live, "active": active, "blk": blk, "gstate": gs})
+		x.Log(trace.E{"ev": "quiet", "live": live, "active": active, "blk": blk, "xblk": xblk, "gstate": gs})
 		d.lastQ = fmt.Sprint(live, active, blk, gs, x.T.Seq())
 	}
 	if sc.Burst {
